@@ -86,6 +86,9 @@ type Params struct {
 	// writes (confirmation height, real scid), made through its OWN handle
 	// of the channel record, land in the middle of the update dance.
 	ZeroConf bool
+	// RetryTx: every database write transaction of both sides runs its
+	// closure twice (first execution rolled back), see FaultDB.Retry.
+	RetryTx bool
 }
 
 func (p Params) String() string {
@@ -175,6 +178,7 @@ func DrawParams(t *rapid.T, types []string) Params {
 	copy(p.Seed[:], rapid.SliceOfN(rapid.Byte(), 32, 32).Draw(t, "seed"))
 	// Derived from the drawn seed (no draw of its own, so that the draw
 	// sequence of all other parameters and saved replays stay as they are).
+	p.RetryTx = p.Seed[9]%4 == 0
 	if p.Seed[7]%3 == 0 {
 		p.ZeroConf = true
 		p.ChanType |= channeldb.ZeroConfBit | channeldb.ScidAliasChanBit
